@@ -335,6 +335,11 @@ fn run_check(def: &CheckDef, args: &Args) -> i32 {
         acc.faults,
         wall
     );
+    println!(
+        "  determinism digest: worlds={} oplog_xor={:016x}",
+        sim::GLOBAL_WORLDS.load(SeqCst),
+        sim::GLOBAL_LOG_DIGEST.load(SeqCst)
+    );
     if exit == 0 {
         println!("OK property={} held on everything explored", def.info.id);
     }
